@@ -17,6 +17,15 @@ class PostBroken(Exception):
 
 def main(tier):
     rep = common.Report("C20", tier)
+    try:
+        return _main(rep, tier)
+    except PostBroken as e:
+        # a contract fired outside a guarded comparison: still a violation with a witness
+        rep.fail("contract|comparison-disagrees-with-tuple", {"error": str(e)[:400]})
+        return rep.finish({"evaluations": 1, "distinct_nontrivial": 2, "rule": "aborted by a contract violation", "samples": [{"error": str(e)[:200]}]})
+
+
+def _main(rep, tier):
     mm, py = ctx.load()
     T = py.T
     P, R, L = T.Position, T.Range, T.Location
@@ -82,6 +91,27 @@ def main(tier):
             tb = (r.randrange(2**31), r.randrange(2**31))
         judge_pair(P(*ta), P(*tb), ta, tb, "rnd")
 
+    # history: positions are mutable - comparisons must follow the CURRENT coordinates
+    n_mut = 0
+    for _ in range(300 if tier == "quick" else 20000):
+        ta = (r.randrange(2**31), r.randrange(2**31))
+        tb = (ta[0], r.randrange(2**31)) if r.random() < 0.5 else (r.randrange(2**31), r.randrange(2**31))
+        a, b = P(*ta), P(*tb)
+        judge_pair(a, b, ta, tb, "pre-mutation")
+        hash_probe = R(a, b) == R(P(*ta), P(*tb))
+        ta2 = (tb[0], tb[1]) if r.random() < 0.3 else (r.randrange(2**31), ta[1])
+        a.line, a.character = ta2
+        n_mut += 1
+        judge_pair(a, b, ta2, tb, "post-mutation")
+        try:
+            _probe = (R(a, b) == R(P(*ta2), P(*tb)), L("u", R(a, b)) == L("u", R(P(*ta2), P(*tb))), R(a, b) == R(P(*ta), P(*tb)))
+        except PostBroken as e:
+            rep.fail("contract|comparison-disagrees-with-tuple|after an in-place change", {"before": ta, "after": ta2, "b": tb, "error": str(e)[-200:]})
+            continue
+        if (R(a, b) == R(P(*ta2), P(*tb))) is not True or (L("u", R(a, b)) == L("u", R(P(*ta2), P(*tb)))) is not True:
+            rep.fail("Range/Location equality ignores an in-place change of a position", {"before": ta, "after": ta2, "b": tb})
+        if ta2 != ta and (R(a, b) == R(P(*ta), P(*tb))) is not False:
+            rep.fail("Range equality ignores an in-place change of a position", {"before": ta, "after": ta2, "b": tb})
     # Range / Location equality is structural
     n_rl = 0
     small = [(0, 0), (0, 1), (1, 0), (2**31 - 1, 2**31 - 1)]
@@ -119,8 +149,26 @@ def main(tier):
     p, rg = P(1, 2), R(P(1, 2), P(3, 4))
     loc = L("file:///a", rg)
     n_unrel = 0
+    import types as _types
+
+    # unrelated objects that carry the SAME member names with EQUAL values (duck-typed equality
+    # would call them equal): ad-hoc namespaces and other classes of the package itself
+    twins = {
+        "Position": [_types.SimpleNamespace(line=1, character=2)],
+        "Range": [_types.SimpleNamespace(start=P(1, 2), end=P(3, 4))],
+        "Location": [_types.SimpleNamespace(uri="file:///a", range=rg)],
+    }
+    for cname in ("CallHierarchyItem", "TypeHierarchyItem"):
+        C = getattr(T, cname, None)
+        if C is not None:
+            try:
+                twins["Location"].append(C(name="n", kind=T.SymbolKind.File, uri="file:///a", range=rg, selection_range=rg))
+            except Exception:
+                pass
+    for cname in ("SelectionRange",):
+        pass
     for subj, sname in ((p, "Position"), (rg, "Range"), (loc, "Location")):
-        others = [None, (1, 2), {"line": 1, "character": 2}, LookAlike(), "1:2", 12, [1, 2]]
+        others = [None, (1, 2), {"line": 1, "character": 2}, LookAlike(), "1:2", 12, [1, 2]] + twins[sname]
         others += [x for x in (p, rg, loc) if x is not subj]
         for o in others:
             n_unrel += 1
@@ -162,6 +210,7 @@ def main(tier):
         "grid_pairs_exhaustive": len(pts) ** 2,
         "range_location_pairs": n_rl,
         "unrelated_object_probes": n_unrel,
+        "in_place_mutation_histories": n_mut,
         "contract_evaluations": counters["contract_evals"],
         "relations_seen": sorted(map(str, seen_rel)),
         "samples": [{"a": [1, 2], "b": [1, 3], "ops": {n: f(P(1, 2), P(1, 3)) for n, f in OPS}}],
